@@ -182,6 +182,18 @@ static void failing_lock_battery(const char *gname) {
 	count("failing_lock_batteries");
 }
 
+// the QS lock_guard is neither copyable nor movable on the tree as found; should it ever become movable, a move has to transfer
+// ownership like that of unique_lock (one lock(), one unlock() in total). (A template: the branch must not be compiled otherwise.)
+template<typename G, typename M>
+static void movable_guard_probe() {
+	if constexpr (std::is_move_constructible_v<G>) {
+		M q;
+		{ G a(q); G b(std::move(a)); if(q.excl != 1) violation("C12:guard:qs-lock_guard:move", "after moving a held QS lock_guard the mutex is not held exactly once"); }
+		if(q.excl != 0 || q.n_lock != q.n_unlock || q.bad) violation("C12:guard:qs-lock_guard:move", strf("a moved QS lock_guard: %llu lock() and %llu unlock() calls (%s)", (unsigned long long)q.n_lock, (unsigned long long)q.n_unlock, q.why.c_str()));
+		count("qs_lock_guard_is_movable");
+	} else count("qs_lock_guard_is_not_movable");
+}
+
 // frg::guard() helpers and the QS lock_guard
 static void guard_helpers() {
 	if(!want_mode("guards:helpers")) return;
@@ -203,6 +215,7 @@ static void guard_helpers() {
 			count("qs_lock_guard_sequences");
 		}
 	});
+	guarded("C12", [] { movable_guard_probe<frg::lock_guard<LogMutex>, LogMutex>(); });
 	// the guards over the library's own lock types, also over a ticket lock that has been in use for a long time (its counters about to
 	// wrap at 2^31 / 2^32; the QS domain keeps its mutex in a frg::lock_guard): 40 guarded sections each; a guard that does not
 	// release hangs the next section (watchdog), one that stops at an assertion is reported by guarded()
